@@ -23,14 +23,17 @@ def sh(cmd, cwd=None, env=None, timeout=3600):
 def fresh():
     if not os.path.isdir(WT):
         sh("git -C /repo worktree add --detach %s HEAD" % WT)
-    sh("git checkout -q --detach $(git -C /repo rev-parse HEAD) && git reset -q --hard && git clean -fdq", cwd=WT)
+    sh("git reset -q --hard && git clean -fdq && git checkout -q --detach $(git -C /repo rev-parse HEAD) && git reset -q --hard && git clean -fdq", cwd=WT)
 
 
 def main():
     head = sh("git -C /repo rev-parse --short HEAD")[1].strip()
     for pid in sys.argv[1:]:
         pid = pid.upper()
-        dirs = sorted(d for d in os.listdir(os.path.join(VERIF, "seeded")) if d.startswith(pid + "-"))
+        if "-" in pid:      # a single seed, e.g. C09-12
+            dirs, pid = [pid], pid.split("-")[0]
+        else:
+            dirs = sorted(d for d in os.listdir(os.path.join(VERIF, "seeded")) if d.startswith(pid + "-"))
         for d in dirs:
             path = os.path.join(VERIF, "seeded", d)
             mp = os.path.join(path, "meta.json")
